@@ -161,29 +161,6 @@ def rtLoc (l : Loc) : Loc :=
 def observeSeq (fasta : Bool) (s : Seq) : Seq :=
   if fasta then ⟨[], s.bytes⟩ else ⟨s.feats.map fun f => { f with loc := rtLoc f.loc }, s.bytes⟩
 
-/-- Known finding K15A: every piece of `split` / `extract` comes out of `gts.Slice`, which records
-the slice as `Fields.Region`; the GenBank writer prints it with `gts.Range(h, t)`, which panics
-when the piece is empty (`h = t`). -/
-def writerPanics (fasta : Bool) (ss : List Seq) : Bool := !fasta && ss.any (·.bytes.isEmpty)
-
-mutual
-/-- the leaf whose `gts.Slice` provides the metadata of `Region.Locate`: `Concat` keeps the
-metadata of its first argument -/
-def firstLeaf : Reg → Option Seg
-  | .seg h t => some (h, t)
-  | .many rs => firstLeafList rs
-def firstLeafList : List Reg → Option Seg
-  | [] => none
-  | r :: _ => firstLeaf r
-end
-
-/-- K15A for `extract`: the REGION field of an emitted record is the slice of the first leaf of
-its region; the writer panics when that slice is empty -/
-def extractPanics (fasta : Bool) (rs : List Reg) : Bool :=
-  !fasta && rs.any fun r => match firstLeaf r with
-    | some (h, t) => h == t
-    | none => false
-
 def encObserved (fasta : Bool) (tops : List Bool) (ss : List Seq) : String :=
   encList (ss.map fun s => encSeq (observeSeq fasta s)) ++ " " ++
     (if fasta then "-" else String.ofList (tops.map fun c => if c then 'C' else 'L'))
@@ -213,10 +190,7 @@ def evalCli (op : String) (args : List Sexp) : Option String :=
       if (l s).isEmpty then pure (encObserved fasta [circ] [s])
       else
         let outs := Cli.split l circ s
-        -- one located region on a circular record: `Rotate`, not `Slice` (no REGION field)
-        if (l s).length != 1 && writerPanics fasta outs then pure "PANIC"
-        else if (l s).length == 1 && !circ && writerPanics fasta outs then pure "PANIC"
-        else pure (encObserved fasta (outs.map fun _ => false) outs)
+        pure (encObserved fasta (outs.map fun _ => false) outs)
   | "cli.rotate", [q, loc, _, fasta] => do
       let out := Cli.rotate (← locatorOf loc) (← decSeq? q)
       pure (encObserved (← decBool? fasta) [true] [out])
@@ -226,8 +200,7 @@ def evalCli (op : String) (args : List Sexp) : Option String :=
       let s ← decSeq? q
       let outs := Cli.extract ls inv s
       let fasta ← decBool? fasta
-      if extractPanics fasta (Cli.extractRegs ls inv s) then pure "PANIC"
-      else pure (encObserved fasta (outs.map fun _ => false) outs)
+      pure (encObserved fasta (outs.map fun _ => false) outs)
   | _, _ => none
 
 end Gts
